@@ -67,8 +67,11 @@ Proof. intros U T c. unfold conv_result. destruct (has_value c); [apply wfo_repl
 
 Lemma opt_assign_conv_ok : forall T U s c, wfo s -> opt_assign_conv T U s c = Ok (conv_result U T c).
 Proof.
-  intros T U s c H. unfold opt_assign_conv, conv_result. destruct (has_value c) eqn:E.
-  - rewrite opt_deref_ok by exact E. cbn [rbind]. apply opt_emplace_ok. exact H.
+  intros T U s c H. unfold opt_assign_conv, conv_result. destruct (has_value c) eqn:E; cbn [negb].
+  - destruct (has_value s) eqn:Es.
+    + rewrite (opt_deref_ok c) by exact E. cbn [rbind]. rewrite (opt_deref_ok s) by exact Es. cbn [rbind].
+      unfold has_value in Es. apply Nat.eqb_eq in Es. rewrite Es. reflexivity.
+    + rewrite opt_deref_ok by exact E. cbn [rbind]. apply opt_emplace_ok. exact H.
   - apply opt_reset_ok. exact H.
 Qed.
 
